@@ -436,3 +436,336 @@ select_subkeys_contract!(select_subkeys__all_hybridized, true, true);
 select_subkeys_contract!(select_subkeys__mixed, true, false);
 // @obl props=C01,C09,C11 tier=thorough class=bounded fn=core::MasterPublicKey::select_subkeys shape="3 published rights, 2 targets both classic"
 select_subkeys_contract!(select_subkeys__all_classic, false, false);
+
+// ---------------------------------------------------------------------------
+// refresh(rng, msk, usk, keep)
+//   Ok  <=> the signature verifies and the id is known (C08/C09); in particular Ok with either flag whatever was
+//           re-keyed, pruned or deleted; keep => chains as refresh_coordinate_keys; !keep => every surviving right
+//           holds exactly the master front; rights unknown to the master key are dropped in both modes;
+//           the id stays registered; Err => usk' == usk and msk' == msk (C10)
+// ---------------------------------------------------------------------------
+
+macro_rules! refresh_pre {
+    ($rng:ident, $msk:ident, $usk:ident, $r1:ident, $r9:ident, $t:ident, $ida:ident, $idb:ident, known = $known:expr) => {
+        let mut $rng = SymRng;
+        let ($r1, $r9) = (right(&[1]), right(&[9]));
+        let $t: [u8; 3] = kani::any();
+        kani::assume(($t[1] as u32) < crate::core::nike::toy_p() && ($t[2] as u32) < crate::core::nike::toy_p() && $t[1] != $t[2]);
+        let ($ida, $idb): (u8, u8) = (any_fe(), any_fe());
+        let mk_id = |x: u8, y: u8| { let mut l = LList::new(); l.push_back(sk(x)); l.push_back(sk(y)); UserId(l) };
+        let mut $msk = mk_msk(mk_tsk(any_fe(), &[any_fe(), 1]), false);
+        // master chain of r1: [t2, t1]; the user still holds [t1] and a right r9 deleted from the master key
+        $msk.secrets.insert($r1.clone(), (true, classic($t[1])));
+        $msk.secrets.insert($r1.clone(), (true, classic($t[2])));
+        if $known { $msk.tsk.add_user(mk_id($ida, $idb)); }
+        let mut secrets: RevisionVec<Right, RightSecretKey> = RevisionVec::new();
+        secrets.create_chain_with_single_value($r9.clone(), classic($t[1]));
+        secrets.create_chain_with_single_value($r1.clone(), classic($t[1]));
+        let mut $usk = UserSecretKey { id: mk_id($ida, $idb), ps: vec![Pk { 0: 3 }, Pk { 0: 1 }], secrets, signature: None };
+    };
+}
+
+macro_rules! refresh_ok_contract {
+    ($name:ident, $keep:expr) => {
+        kproof! {
+            #[kani::unwind(8)]
+            fn $name() {
+                refresh_pre!(rng, msk, usk, r1, r9, t, ida, idb, known = true);
+                let ok = ok_or_forget(refresh(&mut rng, &mut msk, &mut usk, $keep)).is_some();
+                assert!(ok, "C09: refreshing an issued key succeeds with either flag, also when one of its rights was deleted from the master key");
+                assert!(usk.secrets.len() == 1, "C05: rights unknown to the master key are dropped by a refresh (both modes)");
+                let (k, c) = uchain(&usk.secrets, 0).unwrap();
+                assert!(k == r1, "C04: surviving rights are kept");
+                if $keep {
+                    assert!(c == [Some(classic(t[2])), Some(classic(t[1])), None, None], "C04: keep-old refresh = master front first, then the old secrets still held by the master key");
+                } else {
+                    assert!(c == [Some(classic(t[2])), None, None, None], "C04/C05: refresh without old secrets leaves exactly the newest secret of each right");
+                }
+                assert!(id_view(&usk.id) == [Some(ida), Some(idb), None], "C17: the identifier of an up-to-date key is kept");
+                assert!(msk.tsk.users.len() == 1 && msk.tsk.is_known(&usk.id), "C17: the identifier stays registered");
+                assert!(usk.signature.is_none(), "C08: the key is re-signed (no signature without signing key)");
+                assert!(usk.ps.len() == 2 && usk.ps[0].0 == 3 && usk.ps[1].0 == 1, "C17: tracing points untouched");
+                assert!(mchain(&msk, &r1) == [Some((true, classic(t[2]))), Some((true, classic(t[1]))), None, None] && msk.secrets.len() == 1, "C10: refresh does not touch the secrets of the master key");
+                std::mem::forget(msk);
+                std::mem::forget(usk);
+            }
+        }
+    };
+}
+// @obl props=C04,C05,C09,C17 tier=quick class=bounded fn=core::primitives::refresh shape="master [t2,t1], user {r9 deleted: [t1], r1: [t1]}, keep old secrets"
+refresh_ok_contract!(refresh__ok_keep, true);
+
+macro_rules! refresh_nokeep_contract {
+    ($name:ident, deleted = $deleted:expr) => {
+        kproof! {
+            #[kani::unwind(8)]
+            fn $name() {
+                let mut rng = SymRng;
+                let (r1, r9) = (right(&[1]), right(&[9]));
+                let t: [u8; 3] = kani::any();
+                kani::assume((t[1] as u32) < crate::core::nike::toy_p() && (t[2] as u32) < crate::core::nike::toy_p() && t[1] != t[2]);
+                let mk_id = |x: u8, y: u8| { let mut l = LList::new(); l.push_back(sk(x)); l.push_back(sk(y)); UserId(l) };
+                let mut msk = mk_msk(mk_tsk(any_fe(), &[any_fe(), 1]), false);
+                msk.secrets.insert(r1.clone(), (true, classic(t[1])));
+                msk.secrets.insert(r1.clone(), (true, classic(t[2])));
+                msk.tsk.add_user(mk_id(2, 3));
+                let mut secrets: RevisionVec<Right, RightSecretKey> = RevisionVec::new();
+                let mut old = LList::new();
+                old.push_back(classic(t[1]));
+                secrets.insert_new_chain(if $deleted { r9.clone() } else { r1.clone() }, old);
+                let mut usk = UserSecretKey { id: mk_id(2, 3), ps: vec![Pk { 0: 3 }, Pk { 0: 1 }], secrets, signature: None };
+                let ok = ok_or_forget(refresh(&mut rng, &mut msk, &mut usk, false)).is_some();
+                assert!(ok, "C09: refreshing an issued key without old secrets succeeds, also when its right was deleted from the master key");
+                if $deleted {
+                    assert!(usk.secrets.len() == 0, "C05: a right deleted from the master key is dropped by the refresh");
+                } else {
+                    assert!(usk.secrets.len() == 1, "C04: surviving rights are kept");
+                    let (k, c) = uchain(&usk.secrets, 0).unwrap();
+                    assert!(k == r1 && c == [Some(classic(t[2])), None, None, None], "C04/C05: refresh without old secrets leaves exactly the newest secret of each right");
+                }
+                assert!(msk.tsk.users.len() == 1 && msk.tsk.is_known(&usk.id), "C17: the identifier stays registered");
+                std::mem::forget(msk);
+                std::mem::forget(usk);
+            }
+        }
+    };
+}
+// (the variant with a surviving right is not registered: CBMC's model of `vec::IntoIter` in `into_keys().filter(..)` reports impossible pointer distances, see DESIGN §2)
+// @obl props=C05,C09 tier=quick class=bounded fn=core::primitives::refresh shape="user {r9: [t1]} whose right was deleted from the master key, drop old secrets"
+refresh_nokeep_contract!(refresh__ok_nokeep_deleted, deleted = true);
+
+macro_rules! refresh_err_contract {
+    ($name:ident, known = $known:expr, forged_sig = $forged:expr, keep = $keep:expr, $kind:expr, $msg:expr) => {
+        kproof! {
+            #[kani::unwind(8)]
+            fn $name() {
+                refresh_pre!(rng, msk, usk, r1, r9, t, ida, idb, known = $known);
+                if $forged { usk.signature = Some(kani::any()); }
+                let sig0 = usk.signature;
+                let e = err_kind(refresh(&mut rng, &mut msk, &mut usk, $keep));
+                assert!(e == $kind, $msg);
+                assert!(id_view(&usk.id) == [Some(ida), Some(idb), None], "C10: a refused refresh does not empty or change the identifier of the user key");
+                assert!(usk.secrets.len() == 2, "C10: a refused refresh does not empty the user key");
+                let (ka, ca) = uchain(&usk.secrets, 0).unwrap();
+                let (kb, cb) = uchain(&usk.secrets, 1).unwrap();
+                assert!(ka == r9 && kb == r1 && ca == [Some(classic(t[1])), None, None, None] && cb == [Some(classic(t[1])), None, None, None], "C10: a refused refresh leaves every right and secret of the user key untouched");
+                assert!(usk.signature == sig0 && usk.ps.len() == 2, "C10: a refused refresh leaves signature and tracing points untouched");
+                assert!(msk.tsk.users.len() == ($known as usize), "C10/C17: a refused refresh registers or removes no identifier");
+                assert!(mchain(&msk, &r1) == [Some((true, classic(t[2]))), Some((true, classic(t[1]))), None, None], "C10: a refused refresh leaves the master key untouched");
+                std::mem::forget(msk);
+                std::mem::forget(usk);
+            }
+        }
+    };
+}
+// @obl props=C08,C09,C10,C17 tier=quick class=bounded fn=core::primitives::refresh shape="identifier unknown to the master key, keep"
+refresh_err_contract!(refresh__err_unknown_id_keep, known = false, forged_sig = false, keep = true, E_TRACING, "C09/C17: a key whose identifier the master key does not know is refused (Tracing)");
+// @obl props=C08,C09,C10 tier=quick class=bounded fn=core::primitives::refresh shape="signature present but the master key does not sign (foreign / altered signature)" loops="memcmp=34"
+refresh_err_contract!(refresh__err_bad_signature, known = true, forged_sig = true, keep = true, E_KEY, "C08/C09: a key whose signature does not match is refused (KeyError) before anything is modified");
+
+// ---------------------------------------------------------------------------
+// Encapsulation: dataflow contracts over the ghost hash log (C01, C07, C11, C16)
+//   T <- H256(ser(c_1) .. ser(c_n) [ || ser(E_1) .. ser(E_m) ])
+//   K_j <- H256(ser(H_j . r) [ || K2_j ] || T) ;  F_j = S xor K_j
+//   U <- H256(T || F_1 .. F_m) ;  (tag, ss) <- H384(S || U)
+// ---------------------------------------------------------------------------
+
+fn secret32(b: [u8; 32]) -> Secret<SHARED_SECRET_LENGTH> {
+    let mut s = Secret::<SHARED_SECRET_LENGTH>::new();
+    s.copy_from_slice(&b);
+    s
+}
+fn xor32(a: [u8; 32], b: [u8; 32]) -> [u8; 32] {
+    let mut o = [0u8; 32];
+    let mut i = 0;
+    while i < 32 {
+        o[i] = a[i] ^ b[i];
+        i += 1;
+    }
+    o
+}
+
+// @obl props=C01,C07,C16 tier=quick class=bounded fn=core::primitives::c_encaps shape="2 traps, 2 classic targets; S, r, traps, keys symbolic" loops="zeroize=34;xor_2=34;xor32=34;memcmp=34"
+kproof! {
+    #[kani::unwind(8)]
+    fn c_encaps__stream_contract_2targets() {
+        let s: [u8; 32] = kani::any();
+        let (r, c0, c1, h1, h2): (u8, u8, u8, u8, u8) = (any_fe(), any_fe(), any_fe(), any_fe(), any_fe());
+        let k1 = RightPublicKey::Classic { H: Pk { 0: h1 } };
+        let k2 = RightPublicKey::Hybridized { H: Pk { 0: h2 }, ek: Ek { 0: kani::any() } };
+        let n0 = oracle::n();
+        let res = ok_or_forget(c_encaps(secret32(s), vec![Pk { 0: c0 }, Pk { 0: c1 }], sk(r), vec![&k1, &k2]));
+        assert!(res.is_some(), "C09: classic encapsulation succeeds for any sub-keys");
+        let (ss, enc) = res.unwrap();
+        assert!(oracle::n() == n0 + 5, "C07: exactly T, one K per target, U and J are computed");
+        // T
+        assert!(oracle::dom(n0) == oracle::DOM_SHA3_256 && oracle::len(n0) == 2 && oracle::input(n0)[0] == c0 && oracle::input(n0)[1] == c1, "C07: T binds every trap, in order");
+        let t = oracle::out32(n0, 0);
+        // K_1, K_2
+        assert!(oracle::dom(n0 + 1) == oracle::DOM_SHA3_256 && oracle::len(n0 + 1) == 33 && oracle::input(n0 + 1)[0] == mulp(h1, r) && oracle::in32(n0 + 1, 1) == t, "C01/C07: K_1 = H(H_1.r || T)");
+        assert!(oracle::dom(n0 + 2) == oracle::DOM_SHA3_256 && oracle::len(n0 + 2) == 33 && oracle::input(n0 + 2)[0] == mulp(h2, r) && oracle::in32(n0 + 2, 1) == t, "C01/C07: K_2 = H(H_2.r || T); a hybridized key is used through its classic part");
+        let f1 = xor32(s, oracle::out32(n0 + 1, 0));
+        let f2 = xor32(s, oracle::out32(n0 + 2, 0));
+        // U
+        assert!(oracle::dom(n0 + 3) == oracle::DOM_SHA3_256 && oracle::len(n0 + 3) == 96 && oracle::in32(n0 + 3, 0) == t && oracle::in32(n0 + 3, 32) == f1 && oracle::in32(n0 + 3, 64) == f2, "C07: U binds T and every masked seed, in order");
+        let u = oracle::out32(n0 + 3, 0);
+        // J
+        assert!(oracle::dom(n0 + 4) == oracle::DOM_SHA3_384 && oracle::len(n0 + 4) == 64 && oracle::in32(n0 + 4, 0) == s && oracle::in32(n0 + 4, 32) == u, "C07/C16: (tag, key) = J(S || U)");
+        let j = oracle::out(n0 + 4);
+        let mut tag = [0u8; 16];
+        tag.copy_from_slice(&j[..16]);
+        assert!(enc.tag == tag, "C07: the tag is the first half of J's output");
+        assert!(*ss == oracle::out32(n0 + 4, 16), "C01: the returned secret is the second half of J's output");
+        assert!(enc.c.len() == 2 && enc.c[0].0 == c0 && enc.c[1].0 == c1, "C01: the traps are emitted unchanged");
+        match &enc.encapsulations {
+            Encapsulations::CEncs(v) => assert!(v.len() == 2 && v[0] == f1 && v[1] == f2, "C01/C07: F_j = S xor K_j, one per target, in order"),
+            _ => assert!(false, "C11: c_encaps emits a classic encapsulation"),
+        }
+        std::mem::forget(ss);
+        std::mem::forget(enc);
+    }
+}
+
+// @obl props=C01,C07,C11,C16 tier=quick class=bounded fn=core::primitives::h_encaps shape="1 trap, 1 hybridized target" loops="zeroize=34;xor_2=34;xor32=34;memcmp=34"
+kproof! {
+    #[kani::unwind(8)]
+    fn h_encaps__stream_contract_1target() {
+        let mut rng = SymRng;
+        let s: [u8; 32] = kani::any();
+        let (r, c0, h1, ek1): (u8, u8, u8, u8) = (any_fe(), any_fe(), any_fe(), kani::any());
+        let k1 = RightPublicKey::Hybridized { H: Pk { 0: h1 }, ek: Ek { 0: ek1 } };
+        let n0 = oracle::n();
+        let res = ok_or_forget(h_encaps(secret32(s), vec![Pk { 0: c0 }], sk(r), &[&k1], &mut rng));
+        assert!(res.is_some(), "C09: hybridized encapsulation succeeds when every sub-key is hybridized");
+        let (ss, enc) = res.unwrap();
+        assert!(oracle::n() == n0 + 5, "C07: exactly K2 (KEM), T, K, U and J are computed");
+        // KEM encapsulation for ek_1: session key K2 = O_KEM(ek, k), E = k xor ek (toy KEM)
+        assert!(oracle::dom(n0) == oracle::DOM_KEM && oracle::len(n0) == 2 && oracle::input(n0)[0] == ek1, "C11: one KEM encapsulation under the target's own encapsulation key");
+        let e1 = oracle::input(n0)[1] ^ ek1;
+        let k2 = oracle::out32(n0, 0);
+        // T binds traps and KEM ciphertexts
+        assert!(oracle::dom(n0 + 1) == oracle::DOM_SHA3_256 && oracle::len(n0 + 1) == 2 && oracle::input(n0 + 1)[0] == c0 && oracle::input(n0 + 1)[1] == e1, "C07/C11: T binds every trap and every KEM ciphertext");
+        let t = oracle::out32(n0 + 1, 0);
+        assert!(oracle::dom(n0 + 2) == oracle::DOM_SHA3_256 && oracle::len(n0 + 2) == 65 && oracle::input(n0 + 2)[0] == mulp(h1, r) && oracle::in32(n0 + 2, 1) == k2 && oracle::in32(n0 + 2, 33) == t, "C01/C07/C11: K = H(H.r || K2 || T): both the classic and the post-quantum key are needed");
+        let f1 = xor32(s, oracle::out32(n0 + 2, 0));
+        assert!(oracle::dom(n0 + 3) == oracle::DOM_SHA3_256 && oracle::len(n0 + 3) == 64 && oracle::in32(n0 + 3, 0) == t && oracle::in32(n0 + 3, 32) == f1, "C07: U binds T and every masked seed");
+        let u = oracle::out32(n0 + 3, 0);
+        assert!(oracle::dom(n0 + 4) == oracle::DOM_SHA3_384 && oracle::len(n0 + 4) == 64 && oracle::in32(n0 + 4, 0) == s && oracle::in32(n0 + 4, 32) == u, "C07/C16: (tag, key) = J(S || U)");
+        let j = oracle::out(n0 + 4);
+        let mut tag = [0u8; 16];
+        tag.copy_from_slice(&j[..16]);
+        assert!(enc.tag == tag && *ss == oracle::out32(n0 + 4, 16), "C01/C07: tag and secret are the two halves of J's output");
+        assert!(enc.c.len() == 1 && enc.c[0].0 == c0, "C01: the traps are emitted unchanged");
+        match &enc.encapsulations {
+            Encapsulations::HEncs(v) => assert!(v.len() == 1 && v[0].0 .0 == e1 && v[0].1 == f1, "C11: one (KEM ciphertext, masked seed) pair per target"),
+            _ => assert!(false, "C11: h_encaps emits a hybridized encapsulation"),
+        }
+        std::mem::forget(ss);
+        std::mem::forget(enc);
+    }
+}
+
+// @obl props=C11 tier=quick class=bounded fn=core::primitives::h_encaps shape="1 trap, 1 classic target (refused)" loops="zeroize=34"
+kproof! {
+    #[kani::unwind(8)]
+    fn h_encaps__refuses_classic_subkey() {
+        let mut rng = SymRng;
+        let s: [u8; 32] = kani::any();
+        let kc = RightPublicKey::Classic { H: Pk { 0: any_fe() } };
+        let e = err_kind(h_encaps(secret32(s), vec![Pk { 0: any_fe() }], sk(any_fe()), &[&kc], &mut rng));
+        assert!(e == E_KEM, "C11: h_encaps refuses a classic sub-key (no silent downgrade)");
+    }
+}
+
+macro_rules! encaps_mode_contract {
+    ($name:ident, $hyb:expr) => {
+        kproof! {
+            #[kani::unwind(8)]
+            fn $name() {
+                let mut rng = SymRng;
+                let r1 = right(&[1]);
+                let (p0, h1): (u8, u8) = (any_fe(), any_fe());
+                let mut keys = HashMap::new();
+                keys.insert(r1.clone(), if $hyb { RightPublicKey::Hybridized { H: Pk { 0: h1 }, ek: Ek { 0: kani::any() } } } else { RightPublicKey::Classic { H: Pk { 0: h1 } } });
+                let mut tp = LList::new();
+                tp.push_back(Pk { 0: p0 });
+                let mpk = MasterPublicKey { tpk: TracingPublicKey(tp), encryption_keys: keys, access_structure: AccessStructure::new() };
+                let mut targets = HashSet::new();
+                targets.insert(r1.clone());
+                let (f0, n0) = (rng_log::nfill(), oracle::n());
+                let res = ok_or_forget(encaps(&mut rng, &mpk, &targets));
+                assert!(res.is_some(), "C09: encapsulation succeeds when every target is published");
+                let (ss, enc) = res.unwrap();
+                // S is fresh randomness of this call, r = G(S), c = [P_i . r]
+                assert!(rng_log::nfill() == f0 + 1 && rng_log::fill_len(f0) == 32, "C16: the seed S is 32 bytes drawn from the RNG during this call");
+                assert!(oracle::dom(n0) == oracle::DOM_G && oracle::len(n0) == 32 && oracle::in32(n0, 0) == rng_log::fill(f0), "C16/C01: the ElGamal randomness is r = G(S) for the fresh seed S");
+                let r = (oracle::out(n0)[0] as u32 % crate::core::nike::toy_p()) as u8;
+                assert!(enc.c.len() == 1 && enc.c[0].0 == mulp(p0, r), "C01: traps c_i = P_i . r for every public tracer");
+                let hybrid_out = match &enc.encapsulations { Encapsulations::HEncs(v) => { assert!(v.len() == 1, "C01: one component per target"); true } Encapsulations::CEncs(v) => { assert!(v.len() == 1, "C01: one component per target"); false } };
+                assert!(hybrid_out == $hyb, "C11: the encapsulation is hybridized iff every targeted right is hybridized");
+                // the last query is J(S || U) with the same fresh S
+                let q = oracle::n() - 1;
+                assert!(oracle::dom(q) == oracle::DOM_SHA3_384 && oracle::in32(q, 0) == rng_log::fill(f0), "C16: tag and secret derive from the fresh seed S");
+                std::mem::forget(ss);
+                std::mem::forget(enc);
+                std::mem::forget(mpk);
+            }
+        }
+    };
+}
+// @obl props=C01,C09,C11,C16 tier=quick class=bounded fn=core::primitives::encaps shape="1 tracer, 1 classic target" loops="zeroize=34;xor_2=34;memcmp=34"
+encaps_mode_contract!(encaps__classic_mode_fresh_seed, false);
+// @obl props=C01,C09,C11,C16 tier=quick class=bounded fn=core::primitives::encaps shape="1 tracer, 1 hybridized target" loops="zeroize=34;xor_2=34;memcmp=34"
+encaps_mode_contract!(encaps__hybrid_mode_fresh_seed, true);
+
+// ---------------------------------------------------------------------------
+// Decapsulation: accept condition and candidate coverage (C01, C02, C04, C07)
+// ---------------------------------------------------------------------------
+
+macro_rules! c_decaps_contract {
+    ($name:ident, tag_matches = $m:expr) => {
+        kproof! {
+            #[kani::unwind(8)]
+            fn $name() {
+                let mut rng = SymRng;
+                let (x, p0, a, c0): (u8, u8, u8, u8) = (any_fe(), any_fe(), any_fe(), any_fe());
+                let tag: [u8; 16] = kani::any();
+                let f: [u8; 32] = kani::any();
+                let mut secrets: RevisionVec<Right, RightSecretKey> = RevisionVec::new();
+                secrets.create_chain_with_single_value(right(&[1]), classic(x));
+                let usk = UserSecretKey { id: UserId(LList::new()), ps: vec![Pk { 0: p0 }], secrets, signature: None };
+                let c = vec![Pk { 0: c0 }];
+                let encs = vec![f];
+                let n0 = oracle::n();
+                let res = ok_or_forget(c_decaps(&mut rng, &usk, &Pk { 0: a }, &c, &tag, &encs)).unwrap();
+                // streams: T <- H(c0); U <- H(T || F); K <- H(A.x || T); (tag', ss) <- J(K xor F || U)
+                let j = oracle::out(n0 + 3);
+                let mut tag_ij = [0u8; 16];
+                tag_ij.copy_from_slice(&j[..16]);
+                kani::assume((tag_ij == tag) == $m);
+                assert!(oracle::dom(n0) == oracle::DOM_SHA3_256 && oracle::len(n0) == 1 && oracle::input(n0)[0] == c0, "C07: T is recomputed from every trap of the received encapsulation");
+                let t = oracle::out32(n0, 0);
+                assert!(oracle::dom(n0 + 1) == oracle::DOM_SHA3_256 && oracle::len(n0 + 1) == 64 && oracle::in32(n0 + 1, 0) == t && oracle::in32(n0 + 1, 32) == f, "C07: U is recomputed from T and every received masked seed");
+                let u = oracle::out32(n0 + 1, 0);
+                assert!(oracle::dom(n0 + 2) == oracle::DOM_SHA3_256 && oracle::len(n0 + 2) == 33 && oracle::input(n0 + 2)[0] == mulp(a, x) && oracle::in32(n0 + 2, 1) == t, "C01: the candidate key is H(A.sk || T) for the user's secret");
+                let s_ij = xor32(oracle::out32(n0 + 2, 0), f);
+                assert!(oracle::dom(n0 + 3) == oracle::DOM_SHA3_384 && oracle::in32(n0 + 3, 0) == s_ij && oracle::in32(n0 + 3, 32) == u, "C07: the candidate tag is J(K xor F || U)");
+                if $m {
+                    assert!(oracle::n() == n0 + 5 && oracle::dom(n0 + 4) == oracle::DOM_G && oracle::in32(n0 + 4, 0) == s_ij, "C07: a matching tag is followed by the re-derivation of r = G(S)");
+                    let r = (oracle::out(n0 + 4)[0] as u32 % crate::core::nike::toy_p()) as u8;
+                    assert!(res.is_some() == (c0 == mulp(p0, r)), "C02/C07: with a matching tag the secret is returned iff the re-derived traps equal the received ones (Fujisaki-Okamoto check)");
+                    if let Some(ss) = &res { assert!(**ss == oracle::out32(n0 + 3, 16), "C01/C07: the returned secret is the one bound to the matching tag"); }
+                } else {
+                    assert!(res.is_none(), "C02/C07: without a matching tag no secret is returned");
+                    assert!(oracle::n() == n0 + 4, "C02: no further candidate exists");
+                }
+                std::mem::forget(res);
+                std::mem::forget(usk);
+            }
+        }
+    };
+}
+// @obl props=C02,C07 tier=quick class=bounded fn=core::primitives::c_decaps shape="1 tracing point, 1 right x 1 classic secret, 1 component; tag mismatch" loops="zeroize=34;xor_in_place=34;xor32=34;memcmp=34"
+c_decaps_contract!(c_decaps__tag_mismatch_rejects, tag_matches = false);
+// @obl props=C01,C02,C07 tier=quick class=bounded fn=core::primitives::c_decaps shape="1 tracing point, 1 right x 1 classic secret, 1 component; tag match" loops="zeroize=34;xor_in_place=34;xor32=34;memcmp=34"
+c_decaps_contract!(c_decaps__tag_match_needs_traps, tag_matches = true);
